@@ -85,3 +85,34 @@ func VerifC16_HealthMeaning() {
 	verif.Assert(h.Health() == (want == 0), "after a set/clear Health() is not 'no condition set'")
 	verif.Cover("end")
 }
+
+// VerifC16_FlagWordShared: host objects of one address created concurrently
+// (the same endpoint in two clusters updated at once) and afterwards all
+// share one health flag word, under every interleaving of the two creators
+// at the store's operations: a condition set through one is seen through the
+// others.
+func VerifC16_FlagWordShared() {
+	verif.Switches(verif.Param("flag_switches", 3, 4))
+	existing := verif.Choose("address_known_before", 2) == 1
+	healthStore = sync.Map{}
+	if existing {
+		GetHealthFlagPointer("a:1")
+	}
+	var p1 *uint64
+	done := false
+	go func() {
+		p1 = GetHealthFlagPointer("a:1")
+		done = true
+	}()
+	verif.EngineOnly("the two creators must interleave inside GetHealthFlagPointer: needs a controlled schedule")
+	p2 := GetHealthFlagPointer("a:1")
+	verif.Settle()
+	verif.Assume(done)
+	p3 := GetHealthFlagPointer("a:1")
+	verif.Assert(p1 == p2, "two host objects of one address created concurrently do not share a health flag word")
+	verif.Assert(p3 == p1 && p3 == p2, "a host object created later does not share the address's health flag word")
+	SetHealthFlag(p1, api.FAILED_ACTIVE_HC)
+	SetHealthFlag(p2, api.FAILED_OUTLIER_CHECK)
+	verif.Assert(api.HealthFlag(*p3) == api.FAILED_ACTIVE_HC|api.FAILED_OUTLIER_CHECK, "a health condition set through one host object is not seen through another of the same address")
+	verif.Cover("end")
+}
